@@ -102,8 +102,21 @@ func (e *engine) idBytesCase(b []byte, gen string, wantReject bool) {
 	mon2 := ""
 	if strings.HasPrefix(impl2, "panic") {
 		mon2 = "ExtractPublicKey panics (" + gen + ")"
+	} else if strings.HasPrefix(impl2, "ok") {
+		// "only identity multihashes", stated on the bytes: a key comes out only of a well-formed
+		// multihash whose first varint (the hash code) is 0 and whose digest carries that key
+		code, n := binary.Uvarint(b)
+		if n <= 0 || code != 0 {
+			mon2 = "ExtractPublicKey returns a key from a multihash whose hash code is not IDENTITY (" + gen + ") " + lib.Hex(b)
+		} else if !bytes.Contains(b[n:], lib.Unhex(impl2[3:])) {
+			mon2 = "ExtractPublicKey returns a key that is not in the ID (" + gen + ")"
+		}
 	}
-	e.rep.Compare(op2, model2, impl2, "extract."+strings.SplitN(model2, " ", 2)[0], "codec.extract:"+gen, mon2)
+	br2 := "extract." + strings.SplitN(model2, " ", 2)[0]
+	if gen == "nonidentity-key" {
+		br2 += "." + gen
+	}
+	e.rep.Compare(op2, model2, impl2, br2, "codec.extract:"+gen, mon2)
 }
 
 func (e *engine) runC10() {
@@ -405,13 +418,8 @@ func (e *engine) runC15() {
 				if err := h2.UnmarshalVT(dat); err != nil || h2.GetHashType() != h.GetHashType() || !bytes.Equal(h2.GetHash(), h.GetHash()) {
 					mon = "hash does not survive the binary encoding"
 				}
-				h3 := &hash.Hash{}
-				if len(dat) > 0 {
-					if err := h3.ParseFromB58(h.MarshalString()); err != nil || !h3.CompareHash(h) {
-						mon = "hash does not survive the base58 encoding"
-					}
-				}
 				e.rep.Compare(opm, e.m.Query(opm), "ok "+lib.Hex(dat), "marshal", "codec.hashMarshal", mon)
+				e.b58RoundTripCase(t, d)
 				opl := fmt.Sprintf("codec.hashLen t=%d", t)
 				v, s := 0, 0
 				if hash.HashType(t).Validate() == nil {
@@ -451,7 +459,7 @@ func (e *engine) runC15() {
 		}
 		op := fmt.Sprintf("codec.hashVerify t=%d d=%s data=%s sum=%s", t, lib.Hex(d), lib.Hex(data), sumArg)
 		model := e.m.Query(op)
-		_, err := h.VerifyData(data)
+		ret, err := h.VerifyData(data)
 		impl := "ok 1"
 		if err != nil {
 			impl = "ok 0"
@@ -459,10 +467,18 @@ func (e *engine) runC15() {
 		mon := ""
 		s, ok := stdSum(t, data)
 		want := ok && bytes.Equal(s, d)
-		if (err == nil) != want {
+		switch {
+		case (err == nil) != want:
 			mon = "VerifyData result differs from digest equality"
+		case ok && !bytes.Equal(ret, s):
+			mon = "VerifyData does not return the digest of the data under the hash's algorithm"
+		case !ok && ret != nil:
+			mon = "VerifyData returns a digest for an unknown algorithm"
+		case !bytes.Equal(h.Hash, d) || int32(h.HashType) != t:
+			mon = "VerifyData modified the hash it verifies against"
 		}
 		e.rep.Compare(op, model, impl, "verify."+model[3:], "codec.hashVerify", mon)
+		e.verifySequence(t, d, data, want)
 	}
 	// arbitrary encodings
 	nu := 200 * e.a.Scale
@@ -656,9 +672,11 @@ func main() {
 	case "C10":
 		e.runC10()
 		e.runC10History()
+		e.runC10Extra()
 	case "C15":
 		e.runC15()
 		e.runC15History()
+		e.runC15Extra()
 	default:
 		fmt.Println("unknown property", a.Prop)
 		return
